@@ -152,6 +152,62 @@ def d2_driver_to_raw(n, seed, policy, delivery, fails, d):
         w.close()
 
 
+DAMAGED = {
+    "size-mismatch": '<oneBLOB name="A" size="9" format=".x">QUJD</oneBLOB>',
+    "bad-base64": '<oneBLOB name="A" size="3" format=".x">@@@@</oneBLOB>',
+    "size-not-a-number": '<oneBLOB name="A" size="big" format=".x">QUJD</oneBLOB>',
+    "truncated-payload": '<oneBLOB name="A" size="300" format=".x">QUJDREVG</oneBLOB>',
+    "second-element-damaged": '<oneBLOB name="A" size="3" format=".x">QUJD</oneBLOB><oneBLOB name="B" size="9" format=".x">@@</oneBLOB>',
+    "unknown-element": '<oneBLOB name="ZZ" size="3" format=".x">QUJD</oneBLOB>',
+}
+
+
+def d2_after_damaged_upload(n, seed, damage, fails):
+    """a client uploads a damaged / partial BLOB (refused or partly applied by the device); what the DRIVER publishes
+    afterwards still reaches every connection that enabled BLOBs, bit-exact, and ordinary traffic goes on"""
+    from mc.core import e2e
+
+    w = e2e.World([spec()], guard_buffers=True)
+    try:
+        up = w.new_link("uploader")
+        li = w.new_link("listener")
+        w.settle()
+        for l in (up, li):
+            l.server_ep.feed(b'<getProperties version="1.7"/><enableBLOB device="DEV0">Also</enableBLOB>')
+        w.settle()
+        up.server_ep.feed(('<newBLOBVector device="DEV0" name="BL">%s</newBLOBVector>' % DAMAGED[damage]).encode())
+        w.settle()
+        marks = {l: len(l.server_ep.written()) for l in (up, li)}
+        b = blob_of(n, seed)
+        w.devices[0].g.bl.a.value = b
+        w.devices[0].g.t.a.value = "after-blob"
+        w.settle()
+        dd = "after-damaged-upload=%s" % damage
+        for l in (up, li):
+            tail = l.server_ep.written()[marks[l] :].decode("latin1")
+            els, rest = X.split_elements(tail)
+            blobs = [e for e in els if e.startswith("<setBLOBVector")]
+            texts = [e for e in els if e.startswith("<setTextVector")]
+            if not blobs:
+                fails.append(("blob-policy", dd, "n=%d: the driver's BLOB published after the damaged upload did not reach connection %s" % (n, l.name)))
+            if not texts:
+                fails.append(("text-policy", dd, "n=%d: the ordinary update after the damaged upload did not reach connection %s" % (n, l.name)))
+            for e in blobs[-1:]:
+                v = X.view_of_xml(e)
+                ch = {dict(c[1])["name"]: c for c in v[3]}
+                try:
+                    raw = base64.b64decode(ch["A"][2] or "", validate=True)
+                except Exception as ex:
+                    fails.append(("payload-not-base64", dd, "n=%d: %r" % (n, ex)))
+                    continue
+                if raw != b.binary or dict(ch["A"][1]).get("format") != b.format:
+                    fails.append(("payload-differs", dd, "n=%d: connection %s got %d bytes format %r" % (n, l.name, len(raw), dict(ch["A"][1]).get("format"))))
+            if l.server_task.done():
+                fails.append(("connection-closed", dd, "n=%d: the server closed connection %s" % (n, l.name)))
+    finally:
+        w.close()
+
+
 def d2_policy_sequence(n, seed, seq, fails):
     """one raw connection changes its mind: the LAST enableBLOB decides what it receives"""
     from mc.core import e2e
@@ -455,6 +511,12 @@ def _run(shard, tier, seed, what, res, absorb):
                 d2_policy_sequence(300, seed, list(seq), f)
                 absorb(f, dict(kind="polseq", n=300, seed=seed, seq=list(seq)))
                 res["executions"] += 1
+            for damage in DAMAGED:
+                for n in (5, 700):
+                    f = []
+                    d2_after_damaged_upload(n, seed, damage, f)
+                    absorb(f, dict(kind="damaged", n=n, seed=seed, damage=damage))
+                    res["executions"] += 1
             for seq in (("Also", "Never", "Only"), ("Only", "Also", "Never"), ("Also", "Also", "Never")):
                 f = []
                 d2_policy_sequence(1500, seed, list(seq), f)
@@ -545,6 +607,8 @@ def _replay(rep):
         d2_policy_sequence(rep["n"], rep["seed"], rep["seq"], f)
     elif k == "largepaused":
         d2_large_paused(rep["n"], rep["seed"], f)
+    elif k == "damaged":
+        d2_after_damaged_upload(rep["n"], rep["seed"], rep["damage"], f)
     elif k == "reuse":
         d1_reuse(rep["n"], rep["seed"], f)
     elif k == "partial":
